@@ -74,6 +74,19 @@ def run(ctx):
             case = dict(case, gen="percolation", kwargs={"p": ctx.rng.choice([0.0, 0, 1.0, 1, 0.4, 0.7])})
         _one(ctx, case, None, pending, gens.edge_rands(ctx.rng, case["kwargs"].get("p", 0.4)))
         ctx.count("adversarial_rand")
+    # long thin grids: sides beyond 127/128/255/256 (narrow integer types), every generator, start anywhere
+    big = [(1, 200), (200, 1), (2, 150), (150, 2), (1, 300), (3, 130), (130, 3), (1, 129), (257, 1)]
+    for rep in range(2 if ctx.quick else 12):
+        for (r, c) in big:
+            for gen in ("dfs", "prim", "dfs_percolation", "percolation"):
+                kw = {}
+                if gen in ("percolation", "dfs_percolation"): kw["p"] = ctx.rng.choice([0.0, 0.3, 1.0])
+                if ctx.rng.random() < 0.3: kw["start_coord"] = (ctx.rng.randrange(r), ctx.rng.randrange(c))
+                if gen == "dfs" and ctx.rng.random() < 0.3: kw["accessible_cells"] = ctx.rng.choice([r * c - 1, r * c // 2, 140])
+                _one(ctx, dict(gen=gen, rows=r, cols=c, kwargs=kw), None, pending)
+                ctx.count("long_thin_grid")
+    for (r, c) in [(1, 130), (130, 1)]:
+        _one(ctx, dict(gen="wilson", rows=r, cols=c, kwargs={}), None, pending); ctx.count("long_thin_grid")
     shapes = [(1, 2), (2, 2), (1, 3), (2, 3)] if ctx.quick else [(1, 2), (2, 2), (1, 3), (3, 1), (2, 3), (3, 2), (1, 5), (2, 4)]
     n_ex, complete = exhaustive_dfs(ctx, shapes, pending, 3000 if ctx.quick else 200000)
     ctx.extra["exhaustive_dfs_runs"] = n_ex; ctx.extra["exhaustive_dfs_complete"] = complete
